@@ -3,6 +3,7 @@
     every theorem about the pieces is a theorem about the very function the correspondence runs against torch. *)
 From Coq Require Import ZArith QArith Qreduction.
 From Leaspy Require Import Io.SaveLoad Io.SaveLoadExec.
+From Leaspy Require Io.F32.
 Open Scope Z_scope.
 
 (** scaled numerator / denominator: (n / d) / 2^sh = numS n sh / denS d sh *)
@@ -21,4 +22,13 @@ Definition r32' (q : Q) : Q :=
   match Qnum q with
   | Z0 => 0%Q
   | _ => let v := core (Z.abs (Qnum q)) (Zpos (Qden q)) in if Qnum q <? 0 then Qopp v else v
+  end.
+
+(** correspondence case for the OTHER executable rounding of the development ([F32.f32] / [F32.store32], the cast of the
+    ingestion model of C14 / C20): value, what torch made of it.  On the normal range [f32], [store32] and [r32] must all give
+    torch's float32; where [f32] answers [None] the expected value must be below the normal range. *)
+Definition f32_case_ok (c : Q * Q) : bool :=
+  match F32.f32 (fst c) with
+  | Some y => Qeq_bool y (snd c) && Qeq_bool (F32.store32 (fst c)) (snd c) && Qeq_bool (r32 (fst c)) y
+  | None => Qle_bool (Qabs.Qabs (snd c)) (F32.pow2 (-126))
   end.
